@@ -262,6 +262,50 @@ def sc_profile_args(cx, minimizer, subtract_min, arrows):
     cx.concrete(tag + ":arrows-forwarded", seen.get("arrows") == arrows, info="%r" % seen)
 
 
+def sc_profiler(cx, default_sub, arg_sub, default_points, arg_points):
+    """ContoursProfiler.get_profile: explicit arguments win over the profiler's defaults (also falsy ones: subtract_min
+    = False, ...), the defaults apply only for None; get_contours asks for cl = 1 - exp(-s^2/2) for each sigma value"""
+    import sys
+
+    import kafe2.fit.tools.contours_profiler  # noqa: F401
+    from props import backend as B
+
+    CP = sys.modules["kafe2.fit.tools.contours_profiler"].ContoursProfiler
+    pb = B.build(cx, "xy", "iminuit", sources=[("SA", "y", "data")], rho=0, n=3)
+    pb.assume_pd()
+    fit = pb.fit
+    fit.do_fit()
+    cp = CP(fit, profile_points=default_points, profile_subtract_min=default_sub, contour_sigma_values=(1.0, 2.0))
+    seen = {}
+    orig = fit._fitter.profile
+
+    def spy(parameter_name, low=None, high=None, sigma=None, cl=None, size=20, subtract_min=False, arrows=False):
+        seen.update(size=size, subtract_min=subtract_min, sigma=sigma, cl=cl)
+        return orig(parameter_name, low, high, sigma, cl, size, subtract_min, arrows)
+
+    fit._fitter.profile = spy
+    cp.get_profile("a", sigma=1.0, points=arg_points, subtract_min=arg_sub)
+    tag = "profiler/default-sub-%s/arg-sub-%s/default-points-%s/arg-points-%s" % (default_sub, arg_sub, default_points, arg_points)
+    want_sub = default_sub if arg_sub is None else arg_sub
+    want_pts = default_points if arg_points is None else arg_points
+    cx.concrete(tag + ":subtract_min-as-requested", seen.get("subtract_min") is want_sub or seen.get("subtract_min") == want_sub and type(seen.get("subtract_min")) is bool, info="handed %r, expected %r" % (seen.get("subtract_min"), want_sub))
+    cx.concrete(tag + ":points-as-requested", seen.get("size") == want_pts, info="handed %r, expected %r" % (seen.get("size"), want_pts))
+    if cx.symbolic:
+        prof = [c for c in stubs.CALLS if c["kind"] == "mnprofile"]
+        cx.concrete(tag + ":backend-profile-called", len(prof) >= 1)
+        if prof:
+            cx.concrete(tag + ":backend-subtract_min", bool(prof[-1]["subtract_min"]) == bool(want_sub), info="%r" % (prof[-1]["subtract_min"],))
+            cx.concrete(tag + ":backend-size", prof[-1]["size"] == want_pts, info="%r" % (prof[-1]["size"],))
+        import math
+
+        del stubs.CALLS[:]
+        cp.get_contours("a", "b")
+        cls = [c["cl"] for c in stubs.CALLS if c["kind"] == "mncontour"]
+        cx.concrete(tag + ":one-contour-per-sigma", len(cls) == 2, info="%r" % (cls,))
+        for sg, cl in zip((1.0, 2.0), cls):
+            cx.concrete(tag + ":contour-cl(%g)" % sg, abs(float(cl) - (1.0 - math.exp(-0.5 * sg * sg))) < 1e-12, info="%r" % (cl,))
+
+
 def sc_numeric(cx, minimizer):
     """concrete-only sampling with the real backends"""
     import numpy as np
@@ -366,5 +410,11 @@ def scenarios(tier, seed):
             for ar in (False, True):
                 S.append(Scenario("profile-args/%s/subtract_min-%s/arrows-%s" % (minimizer, sm, ar), sc_profile_args, family="profile-args/%s" % minimizer, params=dict(minimizer=minimizer, subtract_min=sm, arrows=ar)))
         S.append(Scenario("numeric/%s" % minimizer, sc_numeric, family="numeric", params=dict(minimizer=minimizer), concrete_only=True))
+    for dsub, asub in ((True, False), (True, None), (False, True), (False, None), (True, True)):
+        for dpts, apts in ((5, None), (5, 3)):
+            if tier == "quick" and (dpts, apts) == (5, 3) and asub is None:
+                continue
+            S.append(Scenario("profiler/default-sub-%s/arg-sub-%s/default-points-%s/arg-points-%s" % (dsub, asub, dpts, apts), sc_profiler, family="profiler",
+                              params=dict(default_sub=dsub, arg_sub=asub, default_points=dpts, arg_points=apts)))
     S.append(Scenario("twin/no-factor-2", sc_twin, twin=True))
     return S
